@@ -41,11 +41,15 @@ func c05Stmt(txn, idx int) *Stmt {
 		return upd(1)
 	case 5:
 		return upd(2)
+	case 6:
+		// scan-path update of row 1: the sequential scan hands out row 1 and, in the same step, moves on to
+		// (and locks) the row behind it
+		return &Stmt{Kind: "update", Table: "t", Set: []SetItem{{"v", fmt.Sprintf("s%d.1", txn)}}, Where: ForceScan(Leaf{"k", "=", k(1)})}
 	}
 	return nil
 }
 
-const c05NStmt = 6
+const c05NStmt = 7
 
 type c05Obs struct {
 	stmt *Stmt
